@@ -315,6 +315,14 @@ fn oracle_all() {
         s += "  void g();\n}\n";
         let mut files = lib_files(); files.push((0, s)); projects.push(files);
     } } }
+    // ---- family 2b (C10): return types that are containers, also of void (round 15, seed C10d: `oneway void[] f()`)
+    for io in [false, true].iter() { for mo in [false, true].iter() { for r in ["void[]", "int[]", "String[]", "void[][]", "List<String>", "Map<String,String>", "a.Foo[]"].iter() {
+        let mut s = String::from("package p;\nimport a.Foo;\n");
+        s += &format!("{}interface I {{\n  const int K = 1;\n", if *io { "oneway " } else { "" });
+        s += &format!("  {}{} h();\n  {}{} k(in int a);\n", if *mo { "oneway " } else { "" }, r, if *mo { "oneway " } else { "" }, r);
+        s += "  void g();\n}\n";
+        let mut files = lib_files(); files.push((0, s)); projects.push(files);
+    } } }
     // ---- family 3 (C08): container shapes
     let leaves = ["int", "String", "CharSequence", "a.Foo", "b.Foo", "a.Bar", "Q", "IBinder", "FileDescriptor", "ParcelFileDescriptor", "ParcelableHolder", "Nope", "List", "Map", "int[]", "List<String>"];
     for l in leaves.iter() {
